@@ -229,6 +229,7 @@ let run_expr line =
   let rec term () : fexpr =
     match next () with
     | "leaf" -> let id = nexti () in let th = nexti () in FLeaf (n_of_int id, th <> 0)
+    | "leafref" -> let id = nexti () in FLeafRef (n_of_int id)
     | "mem" ->
         let t = nexti () in let id = nexti () in let cnt = nexti () in
         let kinds = List.init cnt (fun _ -> match next () with "v" -> PVal | "r" -> PRef | "c" -> PCRef | x -> raise (Parse ("kind " ^ x))) in
@@ -259,7 +260,7 @@ let run_expr line =
   let show_ident = function IOrig m -> "o" ^ string_of_int (nat_to_int m) | IBoundRef t -> "b" ^ string_of_int (int_of_n t) | ICopy -> "c" in
   let show_log l = String.concat "" (List.map (fun (id, a) ->
       Printf.sprintf "%d(%s)" (int_of_n id) (String.concat "," (List.map (fun x -> Printf.sprintf "%d:%s" (int_of_z x.a_v) (show_ident x.a_id)) a))) l) in
-  let show_res = function RInt v -> string_of_int (int_of_z v) | RVoid -> "void" | RThrow -> "throw" in
+  let show_res = function RInt v -> string_of_int (int_of_z v) | RRef a -> Printf.sprintf "ref%d:%s" (int_of_z a.a_v) (show_ident a.a_id) | RVoid -> "void" | RThrow -> "throw" in
   let show_c = function COk (l, r) -> show_log l ^ ";" ^ show_res r | CIllFormed -> "ILLFORMED" in
   let (dl, dr) = call_doc e args in
   Printf.sprintf "wt=%b regs=[%s] inval=[%s] docregs=[%s] direct=%s slot=%s doc=%s"
